@@ -11,6 +11,9 @@ import Serif.Drive.C01
 import Serif.Drive.C02
 import Serif.Drive.C16
 import Serif.Drive.C14
+import Serif.Drive.C15
+import Serif.Drive.C19
+import Serif.Drive.C20
 open Lean Serif.Wire
 
 def dispatch (p fam : String) (c impl : Json) : P Json :=
@@ -20,6 +23,9 @@ def dispatch (p fam : String) (c impl : Json) : P Json :=
   | "C02" => Serif.Drive.C02.handle fam c impl
   | "C16" => Serif.Drive.C16.handle fam c impl
   | "C14" => Serif.Drive.C14.handle fam c impl
+  | "C15" => Serif.Drive.C15.handle fam c impl
+  | "C19" => Serif.Drive.C19.handle fam c impl
+  | "C20" => Serif.Drive.C20.handle fam c impl
   | _ => .error s!"unknown property {p}"
 
 def answer (line : String) : Json :=
